@@ -134,6 +134,27 @@ try:
                     pass
                 except Exception as ex:   # noqa
                     fail(dict(case, what='fetching an unknown id raised something else than NoSuchRecording', id=unknown, raised=repr(ex)))
+        # ---- C07: two recordings of one (long) category stay two recordings; ids that were never saved stay unknown
+        for cat in ('L' * 60, 'L' * 205):
+            c = mk(); n += 1
+            try:
+                i1 = save(c, cat, {'k': 'first'}, {'n': 1}); i2 = save(c, cat, {'k': 'second'}, {'n': 2})
+            except Exception:             # noqa
+                continue                  # a category this long may be refused by the storage (file name length): not a round-trip matter
+            for i_, want_ in ((i1, 'first'), (i2, 'second')):
+                try:
+                    g = c.get_recording(i_).get_data('k')
+                except Exception as ex:   # noqa
+                    fail({'cassette': cname, 'what': 'a saved recording of a long category cannot be fetched', 'category_length': len(cat), 'raised': repr(ex)})
+                if g != want_:
+                    fail({'cassette': cname, 'what': 'fetching one recording returned another recording of the same category', 'category_length': len(cat), 'got': g, 'expected': want_})
+            try:
+                r = c.get_recording(i1[:-1] + ('0' if i1[-1] != '0' else '1'))
+                fail({'cassette': cname, 'what': 'an id that was never saved returned a recording', 'category_length': len(cat)})
+            except NoSuchRecording:
+                pass
+            except Exception as ex:       # noqa
+                fail({'cassette': cname, 'what': 'an unknown id raised something else than NoSuchRecording', 'category_length': len(cat), 'raised': repr(ex)})
         # ---- C10: lookup
         c = mk(); ids = {}
         for cat, meta in (('A', {'x': 1, 'incomplete': False}), ('AB', {'x': 1, 'incomplete': False}), ('A', {'x': 2}), ('A_B', {'x': 'abc'}), ('A', {'x': 3, 'incomplete': True})):
@@ -150,6 +171,16 @@ try:
                 fail({'cassette': cname, 'what': 'lookup raised', 'category': cat, 'filter': flt, 'raised': repr(ex)})
             if got != want:
                 fail({'cassette': cname, 'what': 'lookup result differs from the reference', 'category': cat, 'filter': flt, 'got': got, 'expected': want})
+            # limit larger than the number of matches, plain and random order: min(limit, matches) distinct matching ids
+            for rnd_ in (False, True):
+                n += 1
+                try:
+                    big = list(c.iter_recording_ids(cat, metadata=flt, limit=len(want) + 3, random_results=rnd_))
+                except Exception as ex:   # noqa
+                    fail({'cassette': cname, 'what': 'lookup with a limit above the number of matches raised', 'category': cat, 'filter': flt, 'random_results': rnd_, 'raised': repr(ex)})
+                if sorted(big) != want:
+                    fail({'cassette': cname, 'what': 'lookup with a limit above the number of matches does not return every match once', 'category': cat, 'filter': flt,
+                          'random_results': rnd_, 'got': big, 'expected': want})
             if want:
                 n += 1
                 lim = list(c.iter_recording_ids(cat, metadata=flt, limit=1))
